@@ -53,7 +53,7 @@ Complete == form = <<>>
 IsNL(t) == t.t = "\n"
 
 WithPre(ts) == [i \in 1..Len(ts) |->
-                 [t |-> ts[i].t, gap |-> ts[i].gap, lb |-> ts[i].lb, semi |-> ts[i].semi, hd |-> ts[i].hd,
+                 [t |-> ts[i].t, gap |-> ts[i].gap, lb |-> ts[i].lb, semi |-> ts[i].semi, hd |-> ts[i].hd, nlk |-> ts[i].nlk,
                   pre |-> IF i = 1 \/ ts[i].gap = "adj" \/ IsNL(ts[i]) \/ IsNL(ts[i - 1]) THEN "" ELSE " "]]
 
 (* text of the pending here-documents, in order *)
@@ -77,6 +77,62 @@ CaseRec == LET ts == WithPre(toks) IN
            [src |-> Render(ts), sk |-> sk, dev |-> dev, drv |-> drv, ntok |-> Len(toks)]
 
 EmitCase == Complete => PrintT(<<"CASE", ToJson(CaseRec)>>)
+
+
+(***************************************************************************)
+(* Layout transformations (C09).  Each yields a variant token sequence; the *)
+(* expectation is the same program (Norm-equal skeleton) and exactly the    *)
+(* inserted comments.                                                       *)
+(***************************************************************************)
+OpChars == {"&&", "||", "|", "&", ";", ";;", "(", ")", "<", ">", ">>", ">|", "<>", ">&", "<&", "<<", "<<-", "((", "))"}
+IsOpTok(t) == t.t \in OpChars /\ ~(t.t = ")" /\ t.gap = "adj")   \* an adjacent ")" closes $( ) : part of a word
+
+(* a single blank between a and b may be dropped when one of them is an     *)
+(* operator and the two do not fuse into another token                      *)
+Removable(a, b) ==
+    /\ b.pre = " "
+    /\ IsOpTok(a) \/ IsOpTok(b)
+    /\ ~(IsOpTok(a) /\ IsOpTok(b))                        \* "( (", "; ;", "& &", "< <" ...
+    /\ ~(b.t \in {"<", ">", ">>", ">|", "<>", ">&", "<&", "<<", "<<-"} /\ a.t \in {"1", "2", "10", "3"})  \* IO_NUMBER
+    /\ ~(a.t \in {"<<", "<<-"} /\ b.t = "-")
+    /\ a.t # "((" /\ b.t # "))"
+
+SetPre(ts, i, p) == [ts EXCEPT ![i].pre = p]
+
+Variant(kind, at, ts, comments) == [kind |-> kind, at |-> at, src |-> Render(ts), comments |-> comments]
+
+InsAfter(ts, i, t) == SubSeq(ts, 1, i) \o <<t>> \o SubSeq(ts, i + 1, Len(ts))   \* after position i
+
+Repre(ts) == WithPre(ts)
+
+NLTok == [t |-> "\n", gap |-> "sp", lb |-> TRUE, semi |-> FALSE, hd |-> <<>>, nlk |-> "lb"]
+
+Variants(ts0) ==
+    LET ts == WithPre(ts0)
+        n  == Len(ts)
+        idx == 1..n
+        blank    == {Variant("blank", i, SetPre(ts, i, ts[i].pre \o "  "), <<>>) : i \in {j \in idx : ts[j].gap # "adj"}}
+        tab      == {Variant("tab", i, SetPre(ts, i, ts[i].pre \o "\t"), <<>>) : i \in {j \in idx : ts[j].gap # "adj"}}
+        noblank  == {Variant("noblank", i, SetPre(ts, i, ""), <<>>) : i \in {j \in 2..n : Removable(ts[j - 1], ts[j])}}
+        comment  == {Variant("comment", i, SetPre(ts, i, ts[i].pre \o " # c" \o ToString(i) \o " x"), <<" c" \o ToString(i) \o " x">>)
+                       : i \in {j \in idx : IsNL(ts[j])}}
+        \* a comment that starts in column 1 of a continuation line is still a trailing comment
+        \* (only at separator newlines: see known finding F-C09-continuation-in-linebreak)
+        comment1 == {Variant("comment-col1", i, SetPre(ts, i, ts[i].pre \o " \\\n# k" \o ToString(i)), <<" k" \o ToString(i)>>)
+                       : i \in {j \in 2..n : IsNL(ts[j]) /\ ts[j].nlk = "sep" /\ ~IsNL(ts[j - 1]) /\ ~ts[j - 1].lb}}
+        cont     == {Variant("continuation", i, SetPre(ts, i, " \\\n"), <<>>) : i \in {j \in 2..n : ts[j].pre = " " /\ ~IsNL(ts[j])}}
+        semi     == {Variant("semi2nl", i, Repre([ts EXCEPT ![i].t = "\n"]), <<>>) : i \in {j \in idx : ts[j].semi}}
+        blankln  == {Variant("blankline", i, Repre(InsAfter(ts, i, NLTok)), <<>>) : i \in {j \in idx : ts[j].lb}}
+        eofcmt   == IF n > 0 /\ IsNL(ts[n]) /\ HdList(ts, 1) = <<>>
+                    THEN {Variant("comment-eof", n, SetPre(SubSeq(ts, 1, n - 1) \o <<[ts[n] EXCEPT !.t = ""]>>, n, " #eof"), <<"eof">>)}
+                    ELSE {}
+    IN  blank \cup tab \cup noblank \cup comment \cup comment1 \cup cont \cup semi \cup blankln \cup eofcmt
+
+(* C09: the base program together with every single layout transformation *)
+LayoutRec == LET c == CaseRec IN
+             [src |-> c.src, sk |-> c.sk, dev |-> c.dev, drv |-> c.drv, ntok |-> c.ntok,
+              variants |-> SetToSeq(Variants(toks))]
+EmitLayout == Complete => PrintT(<<"CASE", ToJson(LayoutRec)>>)
 
 (* the "same program" relation of C05 / C09: ; and newline separators are   *)
 (* equivalent, list grouping is flattened, optional punctuation is ignored  *)
